@@ -130,7 +130,8 @@ def caps_search(chk, n):
                         pt.close()
                         ft = oqupy.process_tensor.FileProcessTensor("overwrite", fn, d, dt=None, transform_in=p.tin, transform_out=p.tout)
                         for k, m in enumerate(p.mpos):
-                            ft.set_mpo_tensor(k, m)
+                            # tensors arrive in any memory layout (a transposed view of an array built in another leg order)
+                            ft.set_mpo_tensor(k, np.asfortranarray(m) if (k + it) % 2 == 0 else m)
                         pt = ft
                     pt.compute_caps()
                     got = [np.array(pt.get_cap_tensor(k)) for k in range(N + 1)]
